@@ -93,15 +93,15 @@ func ExecNCLoop(c *HistCase, pfx string, reapply bool, rollback *LoopRollback) (
 		}
 		return strings.Join(s, "; ")
 	}
+	// which oracle belongs to the calling check: "device holds the merge" is C01's statement, "the running store
+	// mirrors the device" is C13's; for every other caller (and for the other one of these two) they are
+	// preconditions - a case in which one fails is discarded and counted, the owning check reports it
+	ownsDevice := pfx == "C01" && !reapply && rollback == nil
+	ownsStore := pfx == "C13" && !reapply && rollback == nil
 	pre := func(f *Failure) (bool, []string, *Failure) {
-		// a failed precondition under the re-application oracle: not this check's business
-		if reapply || rollback != nil {
-			GetStats(pfx).Discard("closed-loop-precondition:" + f.Sig)
-			return false, []string{"discard"}, nil
-		}
-		return nontrivial, nil, f
+		GetStats(pfx).Discard("closed-loop-precondition:" + f.Sig)
+		return false, []string{"discard"}, nil
 	}
-	_ = pre
 	ctx, cancel := context.WithCancel(context.Background())
 	defer cancel()
 	env := MustEnv()
@@ -211,7 +211,7 @@ func ExecNCLoop(c *HistCase, pfx string, reapply bool, rollback *LoopRollback) (
 		return nil
 	}
 	if f := checkStore("initial sync"); f != nil {
-		if reapply || rollback != nil {
+		if !ownsStore {
 			return pre(f)
 		}
 		return false, keys(lab), f
@@ -237,13 +237,13 @@ func ExecNCLoop(c *HistCase, pfx string, reapply bool, rollback *LoopRollback) (
 			f.Sig = strings.Replace(f.Sig, "C01:", pfx+":ncloop:", 1)
 			_, calls := fake.TakeEditAnomalies()
 			f.Detail += fmt.Sprintf("\noptions %s, %d documents applied, last calls: %s", c.GNMI, calls, JSON(fake.CallsFrom(max(0, fake.CallCount()-4))))
-			if reapply || rollback != nil {
+			if !ownsDevice {
 				return pre(f)
 			}
 			return nontrivial, keys(lab), f
 		}
 		if f := checkStore(where); f != nil {
-			if reapply || rollback != nil {
+			if !ownsStore {
 				return pre(f)
 			}
 			return nontrivial, keys(lab), f
